@@ -118,6 +118,22 @@ func stormKey(c *stormCase) string {
 	return sb.String()
 }
 
+// stormSample trims a case to a readable size for the evidence file.
+func stormSample(c stormCase) stormCase {
+	out := c
+	out.Clients = nil
+	for _, sc := range c.Clients {
+		if len(sc.Reqs) > 3 {
+			sc.Reqs = sc.Reqs[:3]
+		}
+		out.Clients = append(out.Clients, sc)
+	}
+	if len(out.Clients) > 2 {
+		out.Clients = out.Clients[:2]
+	}
+	return out
+}
+
 func c01Check(rec *evid.Recorder) func(stormCase) *evid.Fail {
 	return func(c stormCase) *evid.Fail {
 		res, f := runStorm(&c, rec)
@@ -228,9 +244,7 @@ func TestC01(t *testing.T) {
 		}
 		rec.Case(key, labels...)
 		rec.ExtraAdd("requests_sent", int64(nreq))
-		if nreq <= 6 {
-			rec.Sample(c)
-		}
+		rec.Sample(stormSample(c))
 		return c
 	}, check)
 
